@@ -126,7 +126,12 @@ func (batch *Batch) close() (err error) {
 // Note that checking errors on a batch is optional, calling Read or ReadMessage
 // is always valid and can be used to either read a message or an error in cases
 // where that's convenient.
-func (batch *Batch) Err() error { return batch.err }
+func (batch *Batch) Err() error {
+	batch.mutex.Lock()
+	err := batch.err
+	batch.mutex.Unlock()
+	return err
+}
 
 // Read reads the value of the next message from the batch into b, returning the
 // number of bytes read, or an error if the next message couldn't be read.
